@@ -4,14 +4,21 @@ Part 1 (DataManager.tla): real DataManager / FileManager / YamlInterface on a st
 directory.  Every writer thread is a REAL thread run under a cooperative scheduler: the thread blocks at each
 of its blocking points (sleeps, `_dirty.wait`, the `is_busy` poll, `_dirty.clear`, `deepcopy`, `open` of the
 temp file, first / second half of the YAML text, `os.replace`) and the driver decides from the TLC schedule who
-runs next, whether an OSError is raised there, or whether the process crashes here.
+runs next, whether a fault is raised there, or whether the process crashes here.
+Fault model (more than one kind of write failure): injected faults of kind 'io' (OSError and its subclasses) and of
+kind 'exc' (exceptions of other classes: ValueError of a closed stream, YAMLError, TypeError ...) at the deep copy
+and at each of the four steps of a file save, and DATA that makes the write fail: values the safe YAML dumper
+cannot represent (decimal.Decimal, Fraction, complex, arbitrary objects ...: kind 'norepr') and values that cannot
+even be deep-copied (locks, generators: kind 'nocopy') handed to save_all.
 Part 2 (MachineVars.tla): real MachineVariables on booted machines; a reboot passes the persisted data through
 the real YAML writer and loader and boots a new machine with the wall clock moved on.
 """
 import builtins
 import copy as _copy
 import datetime
+import decimal
 import errno
+import fractions
 import math
 import os
 import random
@@ -26,8 +33,11 @@ from lib.tlaval import to_tla
 LEVEL = 'model_checking'
 # BusyCheckThenAct: code as it is (known finding).  The other three were fixed in mpf and stay as regression deviations.
 DEVS = ['BusyFlagLeaksOnError', 'FinalFlushUsesClearedCopy', 'StaleYamlEmitterAfterError', 'BusyCheckThenAct']
+# deviations that only explain traces (schedules are not generated with them: a dead writer takes no more steps)
+DEVS_ALL = DEVS + ['WriterDiesOnSaveError', 'WriterDiesOnCopyError']
 PROP_OF = {'BusyFlagLeaksOnError': 'ErrorDoesNotWedge', 'FinalFlushUsesClearedCopy': 'DurableAfterShutdown',
-           'StaleYamlEmitterAfterError': 'ErrorDoesNotWedge', 'BusyCheckThenAct': 'SingleWriter'}
+           'StaleYamlEmitterAfterError': 'ErrorDoesNotWedge', 'BusyCheckThenAct': 'SingleWriter',
+           'WriterDiesOnSaveError': 'ErrorDoesNotWedge', 'WriterDiesOnCopyError': 'ErrorDoesNotWedge'}
 WHAT = {
     'BusyFlagLeaksOnError':
         'FileManager.save (mpf/core/file_manager.py) sets FileManager.is_busy = True and does not reset it when the '
@@ -49,8 +59,18 @@ WHAT = {
         'two steps later inside FileManager.save (after _dirty.clear() and deepcopy): two writer threads can both see '
         'it False and be inside FileManager.save at the same time (concurrent dumps through the shared ruamel '
         'instance raise EmitterError / write into the other file / crash the interpreter)',
+    'WriterDiesOnSaveError':
+        'a write that fails inside FileManager.save with an exception the handler around it in '
+        'DataManager._writing_thread (mpf/core/data_manager.py) does not catch ends the writer thread: the data file '
+        'keeps the earlier version, but every later save_all of that data manager is never written, not even at '
+        'shutdown (the exception of the failing step is in `_exc` of the trace line that ends in `exited`)',
+    'WriterDiesOnCopyError':
+        '`data = copy.deepcopy(self.data)` in DataManager._writing_thread (mpf/core/data_manager.py) is outside the '
+        'try block that guards FileManager.save: data that cannot be deep-copied (or any exception raised by the copy) '
+        'ends the writer thread, and every later save_all of that data manager is never written, not even at shutdown',
 }
 SAVEPTS = ('saveOpen', 'saveWrite', 'saveClose', 'replace')
+FAULTPTS = ('copy',) + SAVEPTS
 STEP_TIMEOUT = 20
 
 # ------------------------------------------------------------------------------------------------ value table
@@ -101,6 +121,75 @@ def strict_eq(a, b):
     return a == b
 
 
+# ------------------------------------------------------------------------------------------- ways to fail
+class _Opaque:
+    """An object of a class nobody registered a YAML representer for."""
+
+
+def _gen():
+    yield 1
+
+
+# values the safe dumper cannot represent (they can be deep-copied)
+NOREPR = [lambda: decimal.Decimal('1.5'), lambda: fractions.Fraction(1, 3), lambda: 2 + 1j, _Opaque,
+          lambda: frozenset([1, 2]), lambda: range(3), lambda: len, lambda: bytearray(b'ab'), lambda: decimal.Decimal]
+# values copy.deepcopy cannot copy (the dumper could not represent them either)
+NOCOPY = [threading.Lock, _gen, threading.RLock]
+
+
+def plant(val, bad, where):
+    """Put the bad element somewhere into the (good) value."""
+    w = where % 5
+    if w == 0:
+        val['bad'] = bad
+    elif w == 1:
+        val['zz_nested'] = {'l': [1, {'deep': [bad]}]}
+    elif w == 2:
+        val['bad_list'] = [1, 'a', bad]
+    elif w == 3:                        # at the very end of a document of several write() calls
+        val.update({('k%03d' % i): list(range(20)) for i in range(400)})
+        val['zzzz'] = bad
+    else:
+        try:
+            val[bad] = 'bad key'
+        except TypeError:               # unhashable
+            val['bad'] = bad
+    return val
+
+
+def _ruamel_error(msg):
+    from ruamel.yaml.error import YAMLError
+    return YAMLError(msg)
+
+
+# injected faults: every class of 'io' is an OSError, no class of 'exc' is
+IO_FAULTS = [lambda w: OSError(errno.ENOSPC, 'injected: no space left on device (%s)' % w),
+             lambda w: OSError(errno.EIO, 'injected: I/O error (%s)' % w),
+             lambda w: PermissionError(errno.EACCES, 'injected: permission denied (%s)' % w),
+             lambda w: FileNotFoundError(errno.ENOENT, 'injected: no such file or directory (%s)' % w),
+             lambda w: TimeoutError(errno.ETIMEDOUT, 'injected: timed out (%s)' % w),
+             lambda w: OSError(errno.EROFS, 'injected: read-only file system (%s)' % w)]
+EXC_FAULTS = [lambda w: ValueError('I/O operation on closed file. (injected, %s)' % w),
+              lambda w: _ruamel_error('injected dumper error (%s)' % w),
+              lambda w: TypeError('injected (%s)' % w),
+              lambda w: RuntimeError('injected (%s)' % w),
+              lambda w: UnicodeEncodeError('utf-8', 'x\udc80', 1, 2, 'surrogates not allowed (injected, %s)' % w),
+              lambda w: AttributeError('injected (%s)' % w),
+              lambda w: RecursionError('injected (%s)' % w),
+              lambda w: MemoryError('injected (%s)' % w),
+              lambda w: LookupError('injected (%s)' % w),
+              lambda w: KeyError('injected (%s)' % w),
+              lambda w: AssertionError('injected (%s)' % w)]
+
+
+def _fail(c, kind, where):
+    """Raise the injected fault of this kind (the class is picked by the driver in c.sel)."""
+    table = IO_FAULTS if kind == 'io' else EXC_FAULTS
+    ex = table[c.sel % len(table)](where)
+    assert isinstance(ex, OSError) == (kind == 'io')
+    raise ex
+
+
 # ------------------------------------------------------------------------------------- cooperative scheduler
 class _Killed(BaseException):
     """Raised inside a writer thread when the simulated process dies."""
@@ -122,7 +211,8 @@ class Ctl:
         self.go = threading.Semaphore(0)
         self.at = threading.Semaphore(0)
         self.point = 'new'
-        self.fault = False
+        self.fault = ''            # '' | 'io' | 'exc': what the next released step has to raise
+        self.sel = 0               # which class of that kind
         self.dead = False
         self.slept = False
         self.exc = None
@@ -135,15 +225,16 @@ class Ctl:
         self.go.acquire()
         if self.dead:
             raise _Killed()
-        f, self.fault = self.fault, False
+        f, self.fault = self.fault, ''
         return f
 
     # --- driver side
     def wait_arrival(self):
         return self.at.acquire(timeout=STEP_TIMEOUT)
 
-    def release(self, fault=False):
+    def release(self, fault='', sel=0):
         self.fault = fault
+        self.sel = sel
         self.go.release()
         if not self.at.acquire(timeout=STEP_TIMEOUT):
             return 'hung'
@@ -215,7 +306,9 @@ class CoopEvent:
 def _deepcopy(x, *a):
     c = _ctl()
     if c is not None:
-        c.arrive('copy')
+        f = c.arrive('copy')
+        if f:
+            _fail(c, f, 'deepcopy')
     return _copy.deepcopy(x, *a)
 
 
@@ -232,14 +325,16 @@ class CoopFile:
         if self._f.closed or c is None:
             return self._f.write(data)      # a closed file raises ValueError, as the real one does
         if self._state == 0:
-            if c.arrive('saveWrite'):
-                raise OSError(errno.ENOSPC, 'injected I/O error (write)')
+            f = c.arrive('saveWrite')
+            if f:
+                _fail(c, f, 'write')
             half = len(data) // 2
             self._f.write(data[:half])
             self._f.flush()
             self._state = 1
-            if c.arrive('saveClose'):
-                raise OSError(errno.ENOSPC, 'injected I/O error (write rest)')
+            f = c.arrive('saveClose')
+            if f:
+                _fail(c, f, 'write rest')
             self._f.write(data[half:])
             self._f.flush()
             self._state = 2
@@ -260,8 +355,9 @@ class CoopFile:
 def _open(file, mode='r', *a, **kw):
     c = _ctl()
     if c is not None and 'w' in mode:
-        if c.arrive('saveOpen'):
-            raise OSError(errno.EIO, 'injected I/O error (open)')
+        f = c.arrive('saveOpen')
+        if f:
+            _fail(c, f, 'open')
         return CoopFile(builtins.open(file, mode, *a, **kw), c)
     return builtins.open(file, mode, *a, **kw)
 
@@ -273,8 +369,9 @@ class OsProxy:
     @staticmethod
     def replace(a, b):
         c = _ctl()
-        if c is not None and c.arrive('replace'):
-            raise OSError(errno.EIO, 'injected I/O error (replace)')
+        f = c.arrive('replace') if c is not None else ''
+        if f:
+            _fail(c, f, 'replace')
         return os.replace(a, b)
 
 
@@ -359,6 +456,7 @@ class World:
         os.makedirs(self.dir)
         self.versions = {i: {} for i in range(1, nm + 1)}
         self.nsaves = 0
+        self.nfaults = 0
         self.ev = []
         self.aborted = False
         self.notes = []
@@ -416,16 +514,25 @@ class World:
         return self.machine.thread_stopper.is_set()
 
     # ---- main
-    def save(self, i):
+    def save(self, i, k='ok', x=None):
         if self.stopped():
             return
         self.nsaves += 1
         v = self.nsaves
         val = _copy.deepcopy(VALUES[(v * 5 + i * 3 + self.salt) % len(VALUES)])
         val['ver'] = v
-        self.versions[i][v] = _copy.deepcopy(val)
+        line = {'op': 'save', 'i': i, 'v': v, 'k': k}
+        if k == 'ok':
+            self.versions[i][v] = _copy.deepcopy(val)
+        else:                                # a version that can never be on disk
+            table = NOREPR if k == 'norepr' else NOCOPY
+            n = (self.salt + v) if x is None else x
+            bad = table[n % len(table)]()
+            plant(val, bad, n // len(table))
+            line['_bad'] = '%s at %d' % (type(bad).__name__, (n // len(table)) % 5)
         self.dm[i].save_all(val)
-        self.ev.append({'op': 'save', 'i': i, 'v': v, 'disk': self.disk()})
+        line['disk'] = self.disk()
+        self.ev.append(line)
 
     def shutdown(self):
         if self.stopped():
@@ -462,7 +569,7 @@ class World:
         self.ev.append({'op': 'crash', 'loaded': loaded, '_at': at, '_tmp': self.tmpstate()})
 
     # ---- writers
-    def step(self, i, fault=False):
+    def step(self, i, fault='none', x=None):
         c = self.ctl[i]
         p = c.point
         if p in ('exited', 'hung') or self.aborted:
@@ -472,10 +579,13 @@ class World:
             # writers inside FileManager.save are already visible in the trace at this point
             self.notes.append('dump overlap avoided')
             return None
-        f = bool(fault) and p in SAVEPTS
-        np = c.release(f)
-        line = {'op': 'w', 'i': i, 'pc': p, 'fault': 'io' if f else 'none', 'npc': np, 'disk': self.disk(),
-                '_tmp': self.tmpstate()}
+        f = fault if fault in ('io', 'exc') and p in FAULTPTS else 'none'
+        if f != 'none':
+            self.nfaults += 1
+            np = c.release(f, (self.salt + self.nfaults) if x is None else x)
+        else:
+            np = c.release()
+        line = {'op': 'w', 'i': i, 'pc': p, 'fault': f, 'npc': np, 'disk': self.disk(), '_tmp': self.tmpstate()}
         if c.exc:
             line['_exc'] = c.exc
         self.ev.append(line)
@@ -547,7 +657,7 @@ def run_job(job):
                         break
                     op = s['op']
                     if op == 'save':
-                        w.save(s['i'])
+                        w.save(s['i'], s.get('k', 'ok'), s.get('x'))
                     elif op == 'shutdown':
                         w.shutdown()
                     elif op == 'crash':
@@ -555,7 +665,7 @@ def run_job(job):
                     elif op == 'unwedge':
                         w.unwedge()
                     elif op == 'w':
-                        w.step(s['i'], s.get('fault') == 'io')
+                        w.step(s['i'], s.get('fault', 'none'), s.get('x'))
                     elif op == 'run':            # hand-written schedules: step writer i until it is at a point
                         w.run_until(s['i'], s['until'])
                     elif op == 'settle':
@@ -576,8 +686,8 @@ def run_job(job):
 
 # ------------------------------------------------------------------------------------------ hand-made schedules
 def handmade():
-    S = lambda i: {'op': 'save', 'i': i}
-    W = lambda i, f='none': {'op': 'w', 'i': i, 'fault': f}
+    S = lambda i, k='ok', x=None: {'op': 'save', 'i': i, 'k': k, 'x': x}
+    W = lambda i, f='none', x=None: {'op': 'w', 'i': i, 'fault': f, 'x': x}
     R = lambda i, p: {'op': 'run', 'i': i, 'until': p}
     SD, CR, UW, ST = {'op': 'shutdown'}, {'op': 'crash'}, {'op': 'unwedge'}, {'op': 'settle'}
     hs = []
@@ -604,14 +714,34 @@ def handmade():
     # seeded (b): a failed write must leave the good file alone
     for p in SAVEPTS:
         hs.append(('error-%s-keeps-file' % p, [W(1), S(1), ST, S(1), R(1, p), W(1, 'io'), CR, ST], True))
+    # every kind of failed write, then later good saves of both managers: they have to reach the disk
+    # (a) data that cannot be written: every unrepresentable / uncopyable value at every place in the data
+    for k, table in (('norepr', NOREPR), ('nocopy', NOCOPY)):
+        for x in range(len(table) * 5):
+            hs.append(('%s-%d-then-save' % (k, x), [W(1), W(2), S(1), ST, S(1, k, x), ST, S(1), S(2), ST], True))
+        hs.append(('%s-first-then-save' % k, [W(1), S(1, k), ST, S(1), ST], True))
+        hs.append(('%s-then-crash' % k, [W(1), W(2), S(1), ST, S(1, k), ST, CR, W(1), S(1), ST], True))
+        hs.append(('%s-overtaken-by-good-save' % k, [W(1), S(1, k), R(1, 'copy'), S(1), ST], True))
+        hs.append(('%s-in-final-flush' % k, [W(1), S(1), R(1, 'rateSleep'), S(1, k), SD], False))
+        hs.append(('%s-then-save-in-rate-sleep-then-shutdown' % k, [W(1), S(1, k), R(1, 'rateSleep'), S(1), SD], False))
+    # (b) every class of injected fault at every step of a save (and at the copy before it)
+    for kind, table in (('io', IO_FAULTS), ('exc', EXC_FAULTS)):
+        for x in range(len(table)):
+            p = FAULTPTS[x % len(FAULTPTS)]
+            hs.append(('%s-class%d-at-%s-then-save' % (kind, x, p),
+                       [W(1), W(2), S(1), ST, S(1), R(1, p), W(1, kind, x), ST, S(1), S(2), ST], True))
+    for p in FAULTPTS:
+        hs.append(('exc-at-%s-then-save' % p, [W(1), W(2), S(1), ST, S(1), R(1, p), W(1, 'exc'), ST, S(1), S(2), ST], True))
+        hs.append(('exc-at-%s-keeps-file' % p, [W(1), S(1), ST, S(1), R(1, p), W(1, 'exc'), CR, ST], True))
+        hs.append(('exc-at-%s-in-final-flush' % p, [W(1), S(1), R(1, 'rateSleep'), S(1), SD, R(1, p), W(1, 'exc')], False))
     return hs
 
 
 # ------------------------------------------------------------------------------------------------ TLC configs
-def dm_cfg(spec, nm, saves, errs, crashes, devs, props):
-    return ('SPECIFICATION %s\nCONSTANTS\n  NM = %d\n  MaxSaves = %d\n  MaxErrors = %d\n  MaxCrashes = %d\n'
+def dm_cfg(spec, nm, saves, errs, crashes, devs, props, bad=1):
+    return ('SPECIFICATION %s\nCONSTANTS\n  NM = %d\n  MaxSaves = %d\n  MaxErrors = %d\n  MaxBad = %d\n  MaxCrashes = %d\n'
             '  Deviations = {%s}\n%sCHECK_DEADLOCK FALSE\n' % (
-                spec, nm, saves, errs, crashes, ', '.join('"%s"' % d for d in devs), props))
+                spec, nm, saves, errs, bad, crashes, ', '.join('"%s"' % d for d in devs), props))
 
 
 SAFETY = ('INVARIANT TypeOK\nINVARIANT NeverTorn\nINVARIANT DurableAfterShutdown\nINVARIANT SingleWriter\n'
@@ -621,12 +751,12 @@ LIVENESS = 'PROPERTY Written\nPROPERTY BusyFree\nPROPERTY WriterEnds\n'
 
 def design_checks(ctx, wd):
     q = ctx.quick
-    b = dict(NM=2, MaxSaves=3 if q else 4, MaxErrors=1, MaxCrashes=1)
+    b = dict(NM=2, MaxSaves=3 if q else 4, MaxErrors=1, MaxBad=1, MaxCrashes=1)
     with open(wd + '/MC.cfg', 'w') as f:
         f.write(dm_cfg('Spec', b['NM'], b['MaxSaves'], b['MaxErrors'], b['MaxCrashes'], [], SAFETY))
     r = tlc.expect_ok(tlc.check(wd, 'DataManager', 'MC.cfg', timeout=3000), 'DataManager design check (safety)')
     ctx.add_tlc('DataManager safety', r, b)
-    bl = dict(NM=2, MaxSaves=2 if q else 3, MaxErrors=1, MaxCrashes=1)
+    bl = dict(NM=2, MaxSaves=2 if q else 3, MaxErrors=1, MaxBad=1, MaxCrashes=1)
     with open(wd + '/Live.cfg', 'w') as f:
         f.write(dm_cfg('FairSpec', bl['NM'], bl['MaxSaves'], bl['MaxErrors'], bl['MaxCrashes'], [], LIVENESS))
     r = tlc.expect_ok(tlc.check(wd, 'DataManager', 'Live.cfg', timeout=3000), 'DataManager design check (liveness)')
@@ -634,19 +764,27 @@ def design_checks(ctx, wd):
     ctx.coverage['monitors'] += ['NeverTorn', 'DurableAfterShutdown', 'SingleWriter', 'BusyWhileWriting',
                                  'Written (ErrorDoesNotWedge)', 'BusyFree (ErrorDoesNotWedge)', 'WriterEnds']
     # the named deviations are the behaviours that break the properties: each one alone must be caught by TLC
-    expect = {'FinalFlushUsesClearedCopy': ('Spec', 'INVARIANT DurableAfterShutdown\n', 'DurableAfterShutdown'),
-              'BusyFlagLeaksOnError': ('FairSpec', 'PROPERTY BusyFree\n', 'TemporalProperty'),
-              'StaleYamlEmitterAfterError': ('FairSpec', 'PROPERTY Written\n', 'TemporalProperty'),
-              'BusyCheckThenAct': ('Spec', 'INVARIANT SingleWriter\n', 'SingleWriter')}
-    for d, (spec, props, viol) in expect.items():
+    # (the last two numbers: budget of injected faults / of unwritable versions; the writer-dies deviations are
+    # checked once with bad data only and once with injected faults only)
+    expect = [('FinalFlushUsesClearedCopy', 'Spec', 'INVARIANT DurableAfterShutdown\n', 'DurableAfterShutdown', 1, 0),
+              ('BusyFlagLeaksOnError', 'FairSpec', 'PROPERTY BusyFree\n', 'TemporalProperty', 1, 0),
+              ('StaleYamlEmitterAfterError', 'FairSpec', 'PROPERTY Written\n', 'TemporalProperty', 1, 0),
+              ('BusyCheckThenAct', 'Spec', 'INVARIANT SingleWriter\n', 'SingleWriter', 1, 0),
+              ('WriterDiesOnSaveError', 'FairSpec', 'PROPERTY Written\n', 'TemporalProperty', 0, 1),
+              ('WriterDiesOnSaveError', 'FairSpec', 'PROPERTY Written\n', 'TemporalProperty', 1, 0),
+              ('WriterDiesOnCopyError', 'FairSpec', 'PROPERTY Written\n', 'TemporalProperty', 0, 1),
+              ('WriterDiesOnCopyError', 'FairSpec', 'PROPERTY Written\n', 'TemporalProperty', 1, 0)]
+    if q:       # the injected-fault variants of the writer-dies deviations only in the thorough tier
+        expect = [e for e in expect if not (e[0].startswith('WriterDies') and e[5] == 0)]
+    for d, spec, props, viol, errs, bad in expect:
         with open(wd + '/Dev.cfg', 'w') as f:
-            f.write(dm_cfg(spec, 2, 2, 1, 0, [d], props))
+            f.write(dm_cfg(spec, 2, 2, errs, 0, [d], props, bad=bad))
         r = tlc.check(wd, 'DataManager', 'Dev.cfg', timeout=3000)
         if not r.violated and re.search(r'Temporal propert\w+ .*violated', r.out):
             r.violated = 'TemporalProperty'
         if r.violated != viol:
             raise tlc.TLCError('deviation %s: expected TLC to report %s, got %s\n%s' % (d, viol, r.violated, r.out[-1500:]))
-        ctx.add_tlc('DataManager with Deviations={%s}: %s violated (as intended)' % (d, viol), r)
+        ctx.add_tlc('DataManager with Deviations={%s}, MaxErrors=%d, MaxBad=%d: %s violated (as intended)' % (d, errs, bad, viol), r)
 
 
 def explain(wd, traces, ids, cfg):
@@ -678,9 +816,10 @@ def show(ev, upto=None):
     out = []
     for e in ev[:upto]:
         if e['op'] == 'w':
-            out.append('w%d:%s%s>%s%s' % (e['i'], e['pc'], '!io' if e['fault'] == 'io' else '', e['npc'], e['disk']))
+            out.append('w%d:%s%s>%s%s%s' % (e['i'], e['pc'], '' if e['fault'] == 'none' else '!' + e['fault'], e['npc'],
+                                            e['disk'], ('{%s}' % e['_exc']) if e.get('_exc') and e['npc'] == 'exited' else ''))
         elif e['op'] == 'save':
-            out.append('save%d(v%d)' % (e['i'], e['v']))
+            out.append('save%d(v%d%s)' % (e['i'], e['v'], '' if e.get('k', 'ok') == 'ok' else ':%s %s' % (e['k'], e.get('_bad'))))
         elif e['op'] == 'crash':
             out.append('CRASH loaded=%s' % e['loaded'])
         elif e['op'] == 'end':
@@ -699,7 +838,7 @@ def run_datamanager(ctx):
         with open(wd + '/MC3.cfg', 'w') as f:
             f.write(dm_cfg('Spec', 3, 3, 1, 0, [], SAFETY))
         r = tlc.expect_ok(tlc.check(wd, 'DataManager', 'MC3.cfg', timeout=3000), 'DataManager design check (3 managers)')
-        ctx.add_tlc('DataManager safety, 3 managers', r, dict(NM=3, MaxSaves=3, MaxErrors=1, MaxCrashes=0))
+        ctx.add_tlc('DataManager safety, 3 managers', r, dict(NM=3, MaxSaves=3, MaxErrors=1, MaxBad=1, MaxCrashes=0))
         trace_round(ctx, wd, 3, False, 700, 300, 120)
 
 
@@ -717,25 +856,29 @@ def trace_round(ctx, wd, nm, with_handmade, n_design, n_dev, depth):
     # schedules of the design and schedules that also walk through the recorded deviations (unwedge, two writers)
     for label, devs, num in (('design', [], n_design), ('deviating', DEVS, n_dev)):
         with open(wd + '/Gen.cfg', 'w') as f:
-            f.write(dm_cfg('Spec', nm, 5, 2, 1, devs, ''))
+            f.write(dm_cfg('Spec', nm, 5, 2, 1, devs, '', bad=2))
         behs, _ = tlc.simulate(wd, 'DataManager', 'Gen.cfg', num=num, depth=depth, seed=ctx.seed)
         for b in behs:
             add([s['act'] for s in b if s['act']['op'] != 'init'], rnd.random() < 0.5, label)
     traces = harness.pmap(run_job, jobs, chunk=8)
-    consts = 'CONSTANTS\n  NM = %d\n  MaxSaves = 1000000\n  MaxErrors = 1000000\n  MaxCrashes = 1000000\n' % nm
+    consts = ('CONSTANTS\n  NM = %d\n  MaxSaves = 1000000\n  MaxErrors = 1000000\n  MaxBad = 1000000\n'
+              '  MaxCrashes = 1000000\n' % nm)
     with open(wd + '/Trace.cfg', 'w') as f:
         f.write('SPECIFICATION TSpec\n' + consts + '  Deviations = {}\nINVARIANT Reporter\nINVARIANT NeverTorn\n'
                 'INVARIANT DurableAfterShutdown\nINVARIANT SingleWriter\nINVARIANT AllExitedAtEnd\nCHECK_DEADLOCK FALSE\n')
     with open(wd + '/TraceDev.cfg', 'w') as f:
         f.write('SPECIFICATION TSpec\n' + consts + '  Deviations = {%s}\nINVARIANT Reporter\nINVARIANT UsedReport\n'
-                'CHECK_DEADLOCK FALSE\n' % ', '.join('"%s"' % d for d in DEVS))
+                'CHECK_DEADLOCK FALSE\n' % ', '.join('"%s"' % d for d in DEVS_ALL))
     v = tlc.validate_traces(wd, 'DataManagerTrace', 'Trace.cfg', traces, diagnose=False)
     ctx.add_trace_verdict('DataManagerTrace (%d managers)' % nm, v, len(traces))
     ctx.sample({'kind': 'datamanager-trace', 'schedule': jobs[0]['label'], 'trace': show(traces[0]['ev'])})
     cov = ctx.coverage
     for key, vals in (('writer_points_seen', {e['pc'] for t in traces for e in t['ev'] if e['op'] == 'w'}),
                       ('crash_points_seen', {p for t in traces for e in t['ev'] if e['op'] == 'crash' for p in e['_at'].values()}),
-                      ('fault_points_seen', {e['pc'] for t in traces for e in t['ev'] if e['op'] == 'w' and e['fault'] == 'io'})):
+                      ('fault_points_seen', {'%s@%s' % (e['fault'], e['pc']) for t in traces for e in t['ev']
+                                             if e['op'] == 'w' and e['fault'] != 'none'}),
+                      ('bad_data_seen', {'%s: %s' % (e['k'], e['_bad']) for t in traces for e in t['ev']
+                                         if e['op'] == 'save' and e.get('k', 'ok') != 'ok'})):
         cov[key] = sorted(set(cov.get(key, [])) | vals)
     rej = sorted(v.rejected)
     if not rej:
@@ -942,6 +1085,9 @@ def run(ctx):
         'those points are not explored',
         'the crash model is a process crash between scheduler steps (files as they are at that instant); no fsync / '
         'power-loss reordering',
+        'write failures: exceptions (6 OSError classes, 11 other Exception classes) raised at the deep copy, the open '
+        'of the temp file, its two write halves and os.replace, and values the YAML dumper cannot represent / '
+        'copy.deepcopy cannot copy handed to save_all; BaseExceptions that are not Exceptions are not injected',
         'two threads are never let into ruamel dump() at the same time (it can crash the interpreter); two writers '
         'inside FileManager.save are reported from the trace before that point',
         'machine variables: every name has a fixed persist/expire policy applied by configure_machine_var() before '
@@ -968,7 +1114,7 @@ def replay(ctx, data):
     tr = run_job(j)
     print('replay trace:', show(tr['ev']))
     wd = tlc.prepare(ctx.scratch, 'DataManager', 'datamanager')
-    consts = 'CONSTANTS\n  NM = 2\n  MaxSaves = 1000000\n  MaxErrors = 1000000\n  MaxCrashes = 1000000\n'
+    consts = 'CONSTANTS\n  NM = 2\n  MaxSaves = 1000000\n  MaxErrors = 1000000\n  MaxBad = 1000000\n  MaxCrashes = 1000000\n'
     with open(wd + '/Trace.cfg', 'w') as f:
         f.write('SPECIFICATION TSpec\n' + consts + '  Deviations = {}\nINVARIANT Reporter\nINVARIANT NeverTorn\n'
                 'INVARIANT DurableAfterShutdown\nINVARIANT SingleWriter\nINVARIANT AllExitedAtEnd\nCHECK_DEADLOCK FALSE\n')
